@@ -4,6 +4,7 @@ CONSTANTS
   MaxPieces = 2
   Full = FALSE
   Profiles = {1, 2, 3, 4, 5, 6, 7, 8, 9, 10}
+  Ambients = {"clean", "collide", "case", "unrelated"}
   L1Variant = "fixed"
 INVARIANT L1MeetsL2OnArgs
 INVARIANT EmitCases
